@@ -22,7 +22,7 @@
 (* OLDER open report with nothing left to fill (ignore or untrack).  A     *)
 (* report that is not older and has nothing left to fill always untracks.  *)
 (***************************************************************************)
-EXTENDS Naturals, FiniteSets, TLC
+EXTENDS Naturals, FiniteSets, Sequences, TLC
 
 CONSTANTS CID,      \* client order ids
           QTY,      \* order quantities (positive naturals)
@@ -121,6 +121,18 @@ Allowed(cur, e) ==
                                   ELSE {cur}
            [] e.k = "Open"     -> SnapOpen(cur, e)
            [] e.k = "CIF"      -> SnapCIF(cur, e)
+
+(***************************************************************************)
+(* A full account snapshot (AccountEventKind::Snapshot) carries a sequence *)
+(* of reports, possibly several about one order; the engine applies them   *)
+(* in the delivered sequence (EngineState::update_from_account ->          *)
+(* InstrumentState::update_from_account_snapshot).  Reach(st, evs, i) is   *)
+(* the set of order tables that sequence may leave, from report i on.      *)
+(***************************************************************************)
+RECURSIVE Reach(_, _, _)
+Reach(st, evs, i) ==
+  IF i > Len(evs) THEN {st}
+  ELSE UNION { Reach([st EXCEPT ![evs[i].c] = n], evs, i + 1) : n \in Allowed(st[evs[i].c], evs[i]) }
 
 (***************************************************************************)
 (* Behaviour                                                               *)
